@@ -1,6 +1,8 @@
 package c13
 
 import (
+	"io"
+	"log"
 	"testing"
 
 	"github.com/0xReLogic/Helios/verifharness/lab"
@@ -8,5 +10,8 @@ import (
 
 func TestMain(m *testing.M) {
 	lab.Quiet()
+	// backends registered at run time through the admin API have no ErrorLog of their own: their reverse proxies
+	// report aborted exchanges (the batches are full of them) to the process-wide logger
+	log.SetOutput(io.Discard)
 	lab.Main(m, "C13")
 }
